@@ -42,6 +42,8 @@ def urls():
             # control characters next to whitespace / before the scheme, an upper-case redirect target, a scheme-less url with a relative redirect,
             # a punycode label that decodes to an 'amp-' prefix
             "\x00http://www.a.com", "\x00 www.a.com", " \x1f\tWWW.A.com/x\x00 ", "a.com/?u=HTTP://B.COM/x", "http://a.com/r?URL=HTTPS%3A%2F%2FWWW.B.COM",
+            # an EMPTY authority (three or more slashes), with and without a scheme; a scheme-less url with a port
+            "///www.a.com/path", "///path", "////a//b", "http:///www.a.com/x", "//", "///", "a.com:8080", "www.a.com:8080/x",
             "a.com:8080/p?u=/x", "xn--amp-caf-hya.fr", "http://xn--amp-caf-hya.fr/x", "http://www.xn--amp-caf-hya.fr/"]
     return out
 
